@@ -71,6 +71,7 @@ def handle (j : Json) : Except String Json := do
         (match importColumn ss p fs with
          | .ok col =>
            [("valid", Json.bool (ss.all validStmt)),
+            ("wf", Json.bool (S.all fun i => wfName i.fullname && decide (Imp.fromSplit i.split = i))),
             ("noBadParen", Json.bool (ss.all fun st =>
               if doAlign p st then noBadParen st p col fs else noBadParen st p none 1))]
          | .error _ => [])
